@@ -43,6 +43,8 @@ pub fn batches(prop: &str, tier: &str) -> Vec<(&'static str, u64)> {
         "C01" | "C02" | "C04" | "C07" => vec![("fault-free", t(120_000)), ("faults", t(80_000))],
         "C03" => vec![("fault-free", t(160_000)), ("user-faults", t(40_000))],
         "C10" => vec![("fine", t(100_000))],
+        "C15" => vec![("fault-free", t(120_000)), ("faults", t(40_000)), ("helper-race", t(40_000))],
+        "C12" => vec![("fault-free", t(120_000)), ("faults", t(60_000))],
         "C09" => vec![("lifecycle", t(200_000))],
         "C13" => vec![("lending", t(50_000)), ("long-chains", t(150))],
         "C08" => vec![("mock-panics", t(100_000)), ("user-faults", t(60_000))],
@@ -159,6 +161,8 @@ pub fn generate(prop: &str, base_seed: u64, batch: &str, run: u64) -> Scenario {
     match prop {
         "C01" | "C02" | "C03" | "C04" | "C07" => gen_coarse(prop, base_seed, batch, run, &mut rng),
         "C10" => crate::fine::gen_c10(base_seed, batch, run, &mut rng),
+        "C15" => crate::twin::gen_c15(base_seed, batch, run, &mut rng),
+        "C12" => crate::owning::gen_c12(base_seed, batch, run, &mut rng),
         "C09" => crate::lifeworld::gen_c09(base_seed, batch, run, &mut rng),
         "C13" => crate::lifeworld::gen_c13(base_seed, batch, run, &mut rng),
         "C08" => crate::fine::gen_c08(base_seed, batch, run, &mut rng),
@@ -311,6 +315,8 @@ pub fn check_in_process(scn: &Scenario) -> Checked {
     match scn.prop.as_str() {
         "C01" | "C02" | "C03" | "C04" | "C07" => check_coarse(scn),
         "C10" => crate::fine::check_c10(scn),
+        "C15" => crate::twin::check_c15(scn),
+        "C12" => crate::owning::check_c12(scn),
         "C09" => crate::lifeworld::check_c09(scn),
         "C13" => crate::lifeworld::check_c13(scn),
         "C08" => crate::fine::check_c08(scn),
